@@ -131,6 +131,14 @@ SLICES_QUICK += [
      ["flag"], ["none"]),
 ]
 
+INCLROOT = ("inclroot", 3, 2, ["agg", "inc"], ["none", "lab"], ["T"], ["none", "flagoff"], ["none"], ["s6", "s7", "s8"], False, ["flag"], ["none"])
+SLICES_QUICK += [
+    # includes of sub-workflows whose ROOT role carries `enabled`: literal false, an expression on a variable set by the
+    # includer / the root / the user, an expression on the iteration variable of the iterator generating the include
+    ("inclroot2", 2, 1, ["inc"], ["none", "lab", "be12"], ["T", "flagon", "iteq"], ["none", "flagoff"], ["none"], ["s1", "s6", "s7", "s8"], False,
+     ["flag", "plain"], ["none", "flagoff"]),
+]
+
 SLICES_THOROUGH = [
     SLICES_QUICK[0],
     ("struct4", 4, 3, ["agg", "task"], ["none", "lab", "le"], ["T", "iteq"], ["none"], ["none"], [], False, ["flag"], ["none"]),
@@ -159,13 +167,16 @@ SLICES_THOROUGH = [
      ["s1", "s2", "s3"], False, ["flag", "plain"], ["none"], ["fresh"], ["canon"] + SPELLINGS),
     ("invr3", 3, 2, ["agg", "task"], ["be02", "be20", "be3N", "beN1", "beNN", "be11", "b2E", "beE", "bBe"], ["T", "iteq"], ["none"],
      ["none"], [], False, ["flag"], ["none"]),
+    INCLROOT, SLICES_QUICK[-1],
+    ("inclroot3", 3, 2, ["agg", "inc", "task"], ["none", "lab"], ["T", "iteq"], ["none", "flagoff"], ["none"], ["s6", "s7", "s8"], False,
+     ["flag"], ["none"]),
     ("incl3", 3, 2, ["agg", "inc"], ["none", "lb"], ["T", "iteq"], ["none", "flagit"], ["none"], ["s1", "s2", "s3", "s5"], False,
      ["flag"], ["none", "flagoff"]),
 ]
 
 # random larger templates (tlc -simulate): everything allowed
 SIM = (7, 3, ALLK, ["none", "lab", "labc", "lb", "le", "be12", "be21", "be02", "var", "dep", "beE", "bBe", "be20", "beN1", "be3N", "b2E", "be11"], ["T", "F", "flagon", "flagoff", "iteq", "itne"],
-       ["none", "flagoff", "flagit", "itx"], ["none", "hook", "cons", "chan"], ["s1", "s2", "s3", "s4", "s5", "smissing"], True,
+       ["none", "flagoff", "flagit", "itx"], ["none", "hook", "cons", "chan"], ["s1", "s2", "s3", "s4", "s5", "s6", "s7", "s8", "smissing"], True,
        ["plain", "flag", "lst", "both", "cards", "cardsab", "itvar", "itdef", "itcards"], ["none", "flagoff", "lstb", "lstbad"], ["fresh", "same"], ["canon"] + SPELLINGS)
 
 
